@@ -292,11 +292,20 @@ op('estimate_isotopic_distribution',
 # ------------------------------------------------------------------------------------------ digestion (lazy)
 
 
+def _enz(S, W):
+    """an enzyme rule; most of the time the run's sticky one, so that different calls of a run meet on the same
+    (sequence, rule) - what a process-wide cache keyed on them needs in order to be observed"""
+    st = (W.get('sticky') or {}).get('enzyme')
+    if st is not None and S.coin(0.65):
+        return st
+    return S.pick(ENZ)
+
+
 def _g_digest(S, W):
     mn, mx = _minmax(S)
-    enz = S.pick(ENZ)
+    enz = _enz(S, W)
     if S.coin(0.15):
-        enz = [S.pick(ENZ), S.pick(ENZ)]
+        enz = [_enz(S, W), S.pick(ENZ)]
     return ok({'sequence': SEQ(W, S), 'enzyme_regex': V(enz) if S.coin(0.85) else H(W, S, 'regexes'),
                'missed_cleavages': V(S.pick([0, 0, 1, 2, 3])), 'semi': V(S.coin(0.25)), 'min_len': V(mn),
                'max_len': V(mx), 'complete_digestion': V(S.coin(0.8)), 'return_type': V(S.pick(DRT)),
@@ -333,7 +342,7 @@ op('get_semi_enzymatic_sequences', _g_semi,
 op('get_non_enzymatic_sequences', _g_semi,
    lambda pt, a: pt.get_non_enzymatic_sequences(a['sequence'], a['min_len'], a['max_len'], a['return_type']),
    lazy=True)
-op('get_cleavage_sites', lambda S, W: ok({'sequence': SEQ(W, S), 'enzyme_regex': V(S.pick(ENZ))}),
+op('get_cleavage_sites', lambda S, W: ok({'sequence': SEQ(W, S), 'enzyme_regex': V(_enz(S, W))}),
    lambda pt, a: pt.get_cleavage_sites(a['sequence'], a['enzyme_regex']), lazy=True)
 op('build_spans',
    lambda S, W: ok({'max_index': V(S.pick([8, 12])), 'enzyme_sites': H(W, S, 'sites'),
@@ -342,6 +351,28 @@ op('build_spans',
    lazy=True, weight=0.5)
 op('build_semi_spans', lambda S, W: ok({'spans': H(W, S, 'spanlist')}),
    lambda pt, a: pt.build_semi_spans(a['spans']), lazy=True, weight=0.5)
+op('build_enzymatic_spans',
+   lambda S, W: ok({'max_index': V(S.pick([8, 12])), 'enzyme_sites': H(W, S, 'sites'),
+                    'missed_cleavages': V(S.pick([0, 1, 2])), 'min_len': V(S.pick([None, 2])),
+                    'max_len': V(S.pick([None, 6]))}),
+   lambda pt, a: pt.build_enzymatic_spans(a['max_index'], a['enzyme_sites'], a['missed_cleavages'], a['min_len'],
+                                          a['max_len']), lazy=True, weight=0.5)
+op('build_left_semi_spans', lambda S, W: ok({'span': {'nf': ['tuple', [S.randint(0, 3), S.randint(5, 12), 0]]},
+                                             'min_len': V(S.pick([None, 1, 2])), 'max_len': V(S.pick([None, 4]))}),
+   lambda pt, a: pt.build_left_semi_spans(a['span'], a['min_len'], a['max_len']), lazy=True, weight=0.4)
+op('build_right_semi_spans', lambda S, W: ok({'span': {'nf': ['tuple', [S.randint(0, 3), S.randint(5, 12), 0]]},
+                                              'min_len': V(S.pick([1, 2])), 'max_len': V(S.pick([None, 4]))}),
+   lambda pt, a: pt.build_right_semi_spans(a['span'], a['min_len'], a['max_len']), lazy=True, weight=0.4)
+op('build_non_enzymatic_spans', lambda S, W: ok({'span': {'nf': ['tuple', [0, S.randint(2, 7), 0]]},
+                                                 'min_len': V(S.pick([None, 1, 2])), 'max_len': V(S.pick([None, 3]))}),
+   lambda pt, a: pt.build_non_enzymatic_spans(a['span'], a['min_len'], a['max_len']), lazy=True, weight=0.4)
+op('get_regex_match_indices',
+   lambda S, W: ok({'input_str': V(S.pick(['PEPTIDEKRPEK', 'KKRRKK', 'DADAD'])),
+                    'regex_str': V(S.pick(['K', '(?<=K)', 'P[ST]', 'KK', '(?=D)'])), 'offset': V(S.pick([0, 0, 3]))}),
+   lambda pt, a: pt.get_regex_match_indices(a['input_str'], a['regex_str'], a['offset']), lazy=True, weight=0.4)
+op('get_regex_match_range',
+   lambda S, W: ok({'input_str': V(S.pick(['PEPTIDEKRPEK', 'KKRRKK'])), 'regex_str': V(S.pick(['K', 'P[ST]', 'KK']))}),
+   lambda pt, a: pt.get_regex_match_range(a['input_str'], a['regex_str']), weight=0.3)
 op('calculate_span_coverage',
    lambda S, W: ok({'spans': H(W, S, 'spanlist'), 'max_index': V(12), 'accumulate': V(S.coin())}),
    lambda pt, a: pt.calculate_span_coverage(a['spans'], a['max_index'], a['accumulate']), weight=0.5)
